@@ -78,8 +78,9 @@ class Ctx:
             return
         if z3.is_true(goal) and not force:
             return
-        n = sum(1 for o in self.obligs if o.kind == kind and o.line == line)
-        name = "%s:%s@L%d#%d" % (self.contract.key, kind, line, n)
+        # names are ordinal per kind (not line based): an edit elsewhere in the file must not rename them
+        n = sum(1 for o in self.obligs if o.kind == kind)
+        name = "%s:%s#%d" % (self.contract.key, kind, n)
         self.obligs.append(Oblig(name, kind, list(st.pc), goal, line, note))
 
     def exc_matches(self, raised, handler):
@@ -191,6 +192,15 @@ class Exec:
             return slice_(base, lo, hi)
         base = lift(base)
         if isinstance(base, V) and isinstance(base.ty, RecT):
+            sym = self.enum_key(sl, st, base.ty)
+            if sym is not None:
+                # record indexed by a symbolic enum member (diff[op]): case split over the members
+                kv, fields = sym
+                fty = base.ty.fields[fields[0][1]]
+                t = base.ty.get(base.t, fields[-1][1])
+                for pv, f in reversed(fields[:-1]):
+                    t = z3.If(kv.t == kv.ty.const(pv), base.ty.get(base.t, f), t)
+                return V(fty, t)
             key = self.const_key(sl, st)
             f = base.ty.field_of_key(key)
             if f is None:
@@ -212,6 +222,28 @@ class Exec:
         if val is None:
             raise Unsupported("constant index out of range (line %d)" % line)
         return val
+
+    def enum_key(self, node, st, rty):
+        """(key value, [(python member, field)]) when `node` is a non-constant enum value indexing a record whose fields are
+        the enum's members (all of one type); None when the key is a constant"""
+        if isinstance(node, ast.Constant):
+            return None
+        v = self.ev(node, st)
+        if not (isinstance(v, V) and isinstance(v.ty, EnumT)):
+            return None
+        sv = z3.simplify(v.t)
+        for pv in v.ty.values:
+            if sv.eq(v.ty.const(pv)):
+                return None
+        fields = []
+        for pv in v.ty.values:
+            f = rty.field_of_key(pv)
+            if f is None:
+                raise Unsupported("record %s has no field for enum member %r" % (rty, pv))
+            fields.append((pv, f))
+        if len({id(rty.fields[f]) for _, f in fields}) != 1:
+            raise Unsupported("record %s indexed by a symbolic key has fields of different types" % rty)
+        return v, fields
 
     def const_key(self, node, st):
         """python constant used as a record key (string literal or enum member)"""
@@ -789,7 +821,14 @@ class Exec:
                 self.note_escape(vn, st)
             if isinstance(target.slice, ast.Slice):
                 raise Unsupported("slice assignment")
-            if isinstance(base, V) and isinstance(base.ty, RecT):
+            if isinstance(base, V) and isinstance(base.ty, RecT) and self.enum_key(target.slice, st, base.ty) is not None:
+                kv, fields = self.enum_key(target.slice, st, base.ty)
+                newv = coerce(val, base.ty.fields[fields[0][1]]).t
+                kw = {g: base.ty.get(base.t, g) for g in base.ty.fields}
+                for pv, f in fields:
+                    kw[f] = z3.If(kv.t == kv.ty.const(pv), newv, kw[f])
+                nv = V(base.ty, base.ty.mk(**kw))
+            elif isinstance(base, V) and isinstance(base.ty, RecT):
                 key = self.const_key(target.slice, st)
                 f = base.ty.field_of_key(key)
                 if f is None:
